@@ -39,7 +39,7 @@ def base_cases(draw):
   specs = []
   for i in range(nplug):
     base = draw(st.integers(0, i - 1)) if i > 0 and draw(st.integers(0, 3)) == 0 else None
-    specs.append({'ctor': 'ok', 'td': 'ok', 'base': base, 'td_kind': draw(st.sampled_from(['method', 'method', 'method', 'callable']))})
+    specs.append({'ctor': 'ok', 'td': 'ok', 'base': base, 'td_kind': draw(st.sampled_from(['method', 'method', 'method', 'callable', 'instance']))})
   phases = progs.all_phases(prog)
   ts = None
   if draw(st.integers(0, 2)) == 0:
@@ -56,6 +56,8 @@ def base_cases(draw):
       used = True
     if pl:
       p['plugs'] = pl
+      if draw(st.integers(0, 7)) == 0:
+        p['shadow_args'] = True
 
   if not used and phases:
     phases[-1]['plugs'] = [['a0', 0, True]]
